@@ -2,12 +2,12 @@
 """C07 - comparisons form a consistent total order with number < text < logical (K3).
 
 A 26-value pool (numbers, dates >= 1 Mar 1900, text, logicals, blank).  For one supply route the
-complete relation matrix  rel[a][b][op]  (676 ordered pairs x six operators = 4 056 evaluations
+complete relation matrix  rel[a][b][op]  (1 089 ordered pairs x six operators = 6 534 evaluations
 through Parser.parse) is computed once per worker process; every law is then read off the matrix:
 
-  pair laws   (all 676 ordered pairs)  all six results are booleans; exactly one of < = > ;
+  pair laws   (all 1 089 ordered pairs)  all six results are booleans; exactly one of < = > ;
               <= , >= , <> are the derived relations;  a<b  <=>  b>a ;  agreement with the reference key
-  triple laws (all 15 625 ordered triples of the 25 non-blank values, no further evaluation)
+  triple laws (all 32 768 ordered triples of the 32 non-blank values, no further evaluation)
               transitivity of < and of =
 
 Reference key (independent of hotxlfp): rank 0 numbers and dates by exact value (date = days since
@@ -30,23 +30,24 @@ def D(*a):
     return {'$dt': datetime.datetime(*a).isoformat()}
 
 
-NUMBERS = [-2.5, -1, 0, 0.5, 1, 2, 10, 43789, 43789.25]
+NUMBERS = [-2.5, -1, 0, 0.5, 1, 2, 10, 43789, 43789.25, 2 ** 53, 2 ** 53 + 1, 10 ** 17, 10 ** 17 + 1]
 DATES = [D(1900, 3, 1), D(2000, 2, 29), D(2019, 11, 20), D(2019, 11, 20, 6, 0), D(9999, 12, 31)]
-TEXTS = ['', '1', '10', '9', '-1', 'a', 'ab', 'b', 'true']
+TEXTS = ['', '1', '10', '9', '-1', 'a', 'ab', 'b', 'true', 'Apple', 'apple', 'B']
 POOL = NUMBERS + DATES + TEXTS + [True, False, None]
 NONBLANK = [i for i, v in enumerate(POOL) if v is not None]
 
 BOUNDS = {
-    'quick': '26 values (9 numbers incl. negative/fractional and two equal to date serials, 5 date(-time)s from '
-             '1900-03-01 to 9999-12-31, 9 texts incl. empty and numeric-looking, TRUE, FALSE, blank) supplied as '
-             'variables: all 676 ordered pairs x 6 operators; all 15 625 ordered triples of the 25 non-blank '
+    'quick': '33 values (13 numbers incl. negative/fractional, two equal to date serials and adjacent integers above 2^53, 5 date(-time)s from '
+             '1900-03-01 to 9999-12-31, 12 texts incl. empty, numeric-looking and mixed-case, TRUE, FALSE, blank) supplied as '
+             'variables: all 1 089 ordered pairs x 6 operators; all 32 768 ordered triples of the 32 non-blank '
              'values on the computed matrix',
-    'thorough': 'as quick, and the same pool supplied as cell values (676 pairs) and as literals (21 literal-able '
+    'thorough': 'as quick, and the same pool supplied as cell values (1 089 pairs) and as literals (21 literal-able '
                 'values, blank = unset cell: 441 pairs, 8 000 triples)',
 }
 ASSUMPTIONS = [
-    'text order is checked on lower-case ASCII / digit strings only, where code-point and case-insensitive '
-    'orders agree (case-insensitive comparison is not demanded)',
+    'the reference text order is demanded only for pairs where code-point and case-insensitive orders agree; pairs '
+    'such as "Apple"/"apple"/"B" are in the pool for the order-free laws (trichotomy, derived relations, converse, '
+    'transitivity), which must hold under either policy',
     'dates are datetime.datetime values on or after 1 March 1900; 1900-03-01 is only compared with numbers far '
     'from its serial, so C13\'s serial of that day does not influence C07',
     'results must be real booleans (TRUE/FALSE), not 1/0',
@@ -86,6 +87,17 @@ def ref_sign(a, b):
     else:
         kb = key(b)
     return -1 if ka < kb else (1 if ka > kb else 0)
+
+
+def order_demanded(a, b):
+    """Two texts are held to the reference order only where the code-point order and the case-insensitive
+    order agree (the statement does not say which of the two 'lexicographically' means); the pair LAWS
+    (trichotomy, derived relations, converse, transitivity) are demanded for every pair regardless."""
+    if isinstance(a, str) and isinstance(b, str):
+        cp = (a > b) - (a < b)
+        ci = (a.lower() > b.lower()) - (a.lower() < b.lower())
+        return cp == ci
+    return True
 
 
 def kind(v):
@@ -156,7 +168,7 @@ def pair_laws(route, a, b, ab, ba):
     s = ref_sign(a, b)
     exp = {'<': s < 0, '=': s == 0, '>': s > 0}
     got = {'<': lt, '=': eq, '>': gt}
-    if exp != got:
+    if exp != got and order_demanded(a, b):
         bad.append(('order %s vs %s: expected a %s b' % (kind(a), kind(b), '<=>'[s + 1]), exp, got))
     return bad
 
@@ -181,7 +193,7 @@ class Order(Sub):
     name = 'c07.order'
     rule = ('one case = one row of the 26x26 relation matrix of a supply route (matrix = every ordered pair x '
             '{<,=,>,<=,>=,<>}, evaluated once per worker): pair laws for the 26 pairs of the row, transitivity '
-            'of < and = for the 625 triples that start with the row value; non-trivial = pairs of two different '
+            'of < and = for the 1 024 triples that start with the row value; non-trivial = pairs of two different '
             'value kinds (number/date/text/logical/blank) and triples spanning >= 2 kinds')
     min_cases = 26
     min_nontrivial = 8000
